@@ -13,8 +13,15 @@ Stop == Len(h) >= D \/ failed \/ last = "check"
 GStep ==
     /\ ~Stop /\ ~done /\ UNCHANGED done
     /\ \/ \E s \in Scopes, e \in ExpSet : /\ NExp(s) < MaxExp /\ (LateExpect \/ NCalls = 0)
-                                          /\ Unambiguous(WouldBe(s, e)) /\ Expect(s, e)
+                                          /\ CopiersPresent(s, e) /\ Unambiguous(WouldBe(s, e)) /\ Expect(s, e)
                                           /\ Rec([op |-> "expect", s |-> s, e |-> e])
+       \/ \E s \in Scopes, tn \in ObjTNames, md \in CmpModes : /\ NInst(s) < MaxInst /\ InstallComparator(s, tn, md)
+                                                                /\ Rec([op |-> "installcmp", s |-> s, tn |-> tn, md |-> md])
+       \/ \E s \in Scopes, tn \in OTypes \ {"raw"}, md \in CpyModes : /\ NInst(s) < MaxInst /\ InstallCopier(s, tn, md)
+                                                                       /\ Rec([op |-> "installcpy", s |-> s, tn |-> tn, md |-> md])
+       \/ \E s \in Scopes : MaxInst > 0 /\ NoExpectations /\ NInst(s) > 0 /\ RemoveAll(s) /\ Rec([op |-> "removeall", s |-> s])
+       \/ \E s \in Scopes, k \in DKeys, v \in DVals : SetData(s, k, v) /\ Rec([op |-> "setdata", s |-> s, k |-> k, v |-> v])
+       \/ \E s \in Scopes, k \in DKeys : GetData(s, k) /\ Rec([op |-> "getdata", s |-> s, k |-> k])
        \/ \E s \in Scopes, fn \in Fns : NCalls < MaxCalls /\ Begin(s, fn) /\ Rec([op |-> "begin", s |-> s, fn |-> fn])
        \/ \E s \in Scopes, k \in PNames, v \in Vals : Param(s, k, v) /\ Rec([op |-> "param", s |-> s, k |-> k, v |-> v])
        \/ \E s \in Scopes, k \in ONames, ty \in OTypes : OutParam(s, k, ty) /\ Rec([op |-> "outparam", s |-> s, k |-> k, ty |-> ty])
@@ -26,7 +33,8 @@ GStep ==
        \/ Toggles /\ Disable /\ ms[Global].enabled /\ Rec([op |-> "disable"])
        \/ Toggles /\ Enable /\ ~ms[Global].enabled /\ Rec([op |-> "enable"])
        \/ AnyOpen /\ Left /\ Rec([op |-> "left"])
-       \/ NCalls > 0 /\ Check /\ Rec([op |-> "check"])
+       \/ (NCalls > 0 \/ DKeys # {}) /\ Check /\ Rec([op |-> "check"])
+       \/ DKeys # {} /\ (\E s \in Scopes : ms[s].data # <<>>) /\ Clear /\ Rec([op |-> "clear"])
 \* a single deterministic closing step, so that simulation prints each sampled behaviour once
 GEnd == Stop /\ ~done /\ done' = TRUE /\ UNCHANGED <<vars, h>>
 GNext == GStep \/ GEnd
